@@ -17,7 +17,14 @@ RULE = ("alloc: the harness binary installs divan::AllocProfiler as #[global_all
         "(monitor + timed-section decomposition) and the attribution equation are evaluated on the implementation's "
         "output. tuned-alloc: no sample_size (tuning rounds 1,2,4,...), the call script runs only for the first FL calls "
         "of a thread, so discarded tuning rounds allocate and kept samples may not: the reported figures of a kept sample must "
-        "be the tally of its own calls. Non-trivial = at least one sample reports non-zero figures (scripted stream) / at least one call "
+        "be the tally of its own calls. alloc-resize-or-free-only: the generator script allocates and keeps 1-2 buffers (k), the "
+        "call script takes them (t) and only grows / shrinks / frees them, so the timed section contains no allocation: the "
+        "figures must be exactly those operations. e2e-macro-wrappers: the real-macro binary hx-sample-e2e (one process per "
+        "case, Divan::from_args().main(), TSC timer on the virtual clock) with a #[divan::bench] function for every wrapper arm "
+        "of the attribute macro (Rust ABI, extern \"C\", extern \"system\", generic extern \"C\", generic Rust, args, Bencher, "
+        "extern \"C\" Bencher, Bencher+args), outputs owning a Box: per-thread event logs must equal the model's for "
+        "bench/bench(f) with a sized output with destructor, and the allocation rows of the printed table must be exactly the "
+        "operations of the calls (alloc, no dealloc). Non-trivial = at least one sample reports non-zero figures (scripted stream) / at least one call "
         "(other streams).")
 ASSUMPTIONS = [
     "compiler and CPU respect the fences around the timestamp reads (time/fence.rs): the model is program order per thread",
@@ -26,6 +33,7 @@ ASSUMPTIONS = [
     "the hook's event logging inside the timed section does not allocate (log reserved up front)",
 ]
 TRUSTED = [
+    "harness/hx-sample/src/e2e.rs (real-macro benchmark functions) and the parsing of the table's allocation row labels",
     "harness/hx-sample script interpreter (fixed-size stack, black_box against allocation elision) and instrumented types",
     "ocaml/sample.ml parsing/printing of event tokens and figures",
 ]
@@ -78,6 +86,20 @@ def streams(tier, rng):
         if g == k == o == i == "-":
             g = "a16,d"
         outside.append(S.case(e, sh, S.rand_cs(rng, e), rng.randrange(2), ss, sc, th, test, G=g, K=k, F="-", O=o, I=i))
+    resize = []
+    for _ in range(1500 if tier == "quick" else 25000):
+        e = rng.choice([2, 3, 4, 5])
+        g, f = S.rand_kept_scripts(rng)
+        resize.append(S.case(e, rng.choice(S.SHAPES), S.rand_cs(rng, e), rng.randrange(2), rng.choice([1, 2, 3, 5, 17]),
+                             rng.choice([1, 2, 3, 7]), rng.choice(S.THREADS), 0, G=g, K=S.rand_script(rng), F=f,
+                             O=S.rand_script(rng), I=S.rand_script(rng)))
+    resize_t = []
+    for _ in range(300 if tier == "quick" else 5000):
+        e = rng.choice([2, 3, 4, 5])
+        g, f = S.rand_kept_scripts(rng)
+        resize_t.append(S.tuned_case(e, rng.choice(S.SHAPES), S.rand_cs(rng, e), rng.randrange(2), rng.choice([1, 2, 3, 5]),
+                                     rng.choice([1, 2, 3]), rng.choice([20, 30, 45, 60]), 1000, G=g, F=f))
+    e2e = S.e2e_cases(rng, tier)
     tuned = [S.rand_tuned(rng, scripts=True) for _ in range(1500 if tier == "quick" else 25000)]
     return [
         Stream("corpus-alloc", "alloc", _corpus("alloc"), nontrivial=has_call),
@@ -86,10 +108,20 @@ def streams(tier, rng):
         Stream("alloc-only-outside-the-calls", "alloc", outside, nontrivial=has_call, hist=script_hist(outside)),
         # tuned sample size: early calls allocate, later ones do not; the figures of a kept sample must be the
         # tally of its own calls (nothing inherited from a discarded tuning round with the same index)
+        Stream("corpus-e2e", "e2e", _corpus("e2e"), nontrivial=has_call),
         Stream("corpus-tuned-alloc", "tuned-alloc", _corpus("tuned-alloc"), nontrivial=has_call,
                model_input=lambda c, i: c + "\t" + i),
         Stream("tuned-alloc", "tuned-alloc", tuned, nontrivial=has_call, model_input=lambda c, i: c + "\t" + i,
                hist=script_hist(tuned)),
+        # the timed section only resizes / frees buffers the generator allocated: the figures are exactly those
+        # operations (no allocation inside the calls at all)
+        Stream("alloc-resize-or-free-only", "alloc", resize, nontrivial=has_figures, hist=script_hist(resize)),
+        Stream("alloc-resize-or-free-only-tuned", "tuned-alloc", resize_t, nontrivial=has_call,
+               model_input=lambda c, i: c + "\t" + i, hist=script_hist(resize_t)),
+        # the wrappers generated by #[divan::bench] (real-macro binary, one process per case): the destructor of
+        # the returned value runs after the timed section, its deallocation is not attributed to the samples
+        Stream("e2e-macro-wrappers", "e2e", e2e, nontrivial=has_call),
+        Stream("e2e-macro-wrappers-release", "e2e", e2e[::3], nontrivial=has_call, release=True),
         # optimised build (allocation elision, reordering around the timestamps would show here)
         Stream("alloc-scripted-release", "alloc", scripted if tier != "quick" else scripted[::2], nontrivial=has_figures, release=True),
         Stream("alloc-no-user-allocation-release", "alloc", zero if tier != "quick" else zero[::2], nontrivial=has_call, release=True),
@@ -101,7 +133,10 @@ def shrink(item, rerun):
 
     def fails(c):
         impl, model, sb = rerun(mode, c, crate=CRATE, release=rel, drv=DRV)
-        return (not sb.startswith("true")), impl, model, sb
+        # a candidate must fail the same way: same outcome word (a simplification that makes the harness itself
+        # panic, e.g. a call script taking a buffer the generator no longer keeps, is not a smaller witness)
+        same = impl.split(" ")[0] == str(item.get("impl") or "").split(" ")[0]
+        return (not sb.startswith("true")) and same, impl, model, sb
 
     def setf(c, k, v):
         return " ".join(f"{k}={v}" if t.startswith(k + "=") else t for t in c.split(" "))
